@@ -205,6 +205,14 @@ CHECKS = {
         kani=[dict(crate="nexrad-decode", files=["wire_layout.rs", "drd.rs", "c07.rs"], harnesses=
             layout_h(["DrdHeader", "DataBlockId", "VolumeDataBlock", "ElevationDataBlock", "RadialDataBlock", "GenericDataBlockHeader"]) + [
             dict(name="c02_generic_block_new_len", what="GenericDataBlock::new: gate buffer length == gates x (word_size/8) for all u16 x u8"),
+            dict(name="drd_marker_vol", bounded="1 block, one symbolic marker byte", what="VOL block routed to the volume slot only"),
+            dict(name="drd_marker_ref", bounded="1 block, one symbolic marker byte", what="REF routed to the reflectivity slot only, marker in header and gate byte"),
+            dict(name="drd_marker_vel", bounded="1 block, one symbolic marker byte", what="VEL routing"),
+            dict(name="drd_marker_sw", bounded="1 block, one symbolic marker byte", what="SW routing"),
+            dict(name="drd_marker_zdr", bounded="1 block, one symbolic marker byte", what="ZDR routing"),
+            dict(name="drd_marker_phi", bounded="1 block, one symbolic marker byte", what="PHI routing"),
+            dict(name="drd_marker_rho", bounded="1 block, one symbolic marker byte", what="RHO routing"),
+            dict(name="drd_marker_cfp", bounded="1 block, one symbolic marker byte", what="CFP routing"),
             dict(name="drd_route_vol", bounded="1 block, selected bytes symbolic", tier="thorough", what="VOL block delivered as volume block, others absent, reader ends after block"),
             dict(name="drd_route_elv", bounded="1 block, selected bytes symbolic", what="ELV routing"),
             dict(name="drd_route_rad", bounded="1 block, selected bytes symbolic", what="RAD routing"),
